@@ -866,7 +866,13 @@ fn withdrawal_redeemer_index(
         .map(|(cred, _)| cred.as_slice())
         .collect::<Vec<_>>();
 
-    keys.sort();
+    // the ledger keeps the withdrawals ordered by network and credential, and its credential
+    // type lists the script hash before the key hash: a script account (header 0xf_) comes
+    // before a key account (header 0xe_), unlike in the order of their bytes
+    keys.sort_by_key(|account| {
+        let header = account.first().copied().unwrap_or_default();
+        (header & 0x0f, header >> 4 != 0x0f, account.get(1..).unwrap_or_default())
+    });
     keys.dedup();
 
     let credential = adhoc
